@@ -255,7 +255,10 @@ fn exec_c17(sc: &C17Scenario) -> Outcome {
     targets[0].path = "t0000".into();
     cmd_files[0].target = "t0000".into();
     cmd_files[0].rel = WorldSpec::default_cmd_rel("t0000", "build");
-    let spec = WorldSpec { targets, cmd_files, files: vec![], sequences: vec![], max_retained_runs: 2, gitignore: vec![], git: true, lock_host: None, default_ports: 0, omit_max_retained: false, sha256_repo: false, clock_plan: vec![], script_wrappers: 0 };
+    // the configuration relies on the default ports (mapped onto the world's own pair at the socket-call boundary), so that
+    // the bytes of the generated file, its checksum and therefore which tampers hit which character are functions of
+    // the scenario and not of the ports a worker happens to own
+    let spec = WorldSpec { targets, cmd_files, files: vec![], sequences: vec![], max_retained_runs: 2, gitignore: vec![], git: true, lock_host: None, default_ports: 1, omit_max_retained: false, sha256_repo: false, clock_plan: vec![], script_wrappers: 0 };
     let mut w = match World::create(&spec, true) {
         Ok(w) => w,
         Err(e) => return Outcome::skip(&format!("world: {}", e)),
